@@ -57,7 +57,7 @@ func exec(op string) string {
 
 var hopNames = []string{"Connection", "Keep-Alive", "Proxy-Authenticate", "Proxy-Authorization", "TE", "Trailer", "Trailers",
 	"Transfer-Encoding", "Upgrade", "Proxy-Connection"}
-var plainNames = []string{"Accept", "Cookie", "X-Foo", "X-Bar", "Content-Length", "Host", "User-Agent", "Authorization", "X-Forwarded-For"}
+var plainNames = []string{"Accept", "Cookie", "X-Foo", "X-Bar", "Content-Length", "Host", "User-Agent", "Authorization", "X-Forwarded-For", "X-Real-Ip", "X-Bfe-Log-Id"}
 
 func randCase(r *vh.Rand, s string) string {
 	b := []byte(s)
@@ -100,7 +100,7 @@ func gen(r *vh.Rand) string {
 				var toks []string
 				nt := r.Range(0, 3)
 				for t := 0; t < nt; t++ {
-					tok := r.Pick("close", "keep-alive", "upgrade", "te", "X-Foo", "x-bar", "Cookie", "host", "content-length", "Nope")
+					tok := r.Pick("close", "keep-alive", "upgrade", "te", "X-Foo", "x-bar", "Cookie", "host", "content-length", "Nope", "x-real-ip", "X-Forwarded-For")
 					if len(present) > 0 && r.Chance(1, 2) {
 						tok = randCase(r, present[r.Intn(len(present))])
 					}
@@ -142,6 +142,7 @@ func pre(emit func(string), thorough bool) {
 	emit(H("Te", "gzip"))                                       // removed
 	emit(H("Connection", "close", "Keep-Alive", "timeout=5", "Proxy-Authorization", "Basic x", "Upgrade", "h2c", "Transfer-Encoding", "chunked", "Trailer", "X-T", "Proxy-Authenticate", "x"))
 	emit(H("Trailers", "x"))
+	emit(H("Connection", "X-Real-Ip, x-forwarded-for, X-Foo", "X-Real-Ip", "1.2.3.4", "X-Forwarded-For", "5.6.7.8", "X-Foo", "1")) // BFE's own headers are exempt
 }
 
 func main() {
